@@ -1,7 +1,7 @@
 (* C07 property theorems: statements + `exact lemma` only.
    External behaviour (covert policy function of C06, liveness probe, phantom selection, transport
    parameter handling, GeoIP) is universally quantified. *)
-From CJ Require Import Common.Base C06.Model C07.Model C07.Proofs C07.ModelLive C07.ProofsLive.
+From CJ Require Import Common.Base C06.Model C07.Model C07.Proofs C07.ModelLive C07.ProofsLive C07.ProofsSeq.
 
 (* A draft registration handed to ingest is announced to the detector iff it is complete, its transport
    is enabled, its phantom is not blocklisted, it is not already tracked, its covert passes the covert
@@ -331,3 +331,37 @@ Theorem C07_history_counters_once :
     n_pass c + n_fail c = N.of_nat (length l).
 Proof. exact history_counters. Qed.
 Print Assumptions C07_history_counters_once.
+
+(* ================================================================== sequences with duplicates
+   A client registration message that has been through ingest once arrives again -- after any further messages, under
+   any liveness verdicts, as often as one likes: nothing happens (the table is unchanged; not probed, not shared, not
+   announced again).  With C07_share_at_most_once (one message, dual-stack twin included) this gives "passed on to the
+   peers at most once per client registration" over whole histories, within the registration's lifetime (expiry: C08). *)
+Theorem C07_repeated_message_no_effect :
+  forall select params_ok dst_port geoip_ok covert_check live1 live2 live3 cfg st w ws,
+    let st1 := fst (process select params_ok dst_port geoip_ok covert_check live1 cfg st w) in
+    let st2 := fst (process_all select params_ok dst_port geoip_ok covert_check live2 cfg st1 ws) in
+    process select params_ok dst_port geoip_ok covert_check live3 cfg st2 w = (st2, []).
+Proof. exact repeated_message_no_effect. Qed.
+Print Assumptions C07_repeated_message_no_effect.
+
+(* the same over the tester stack, anywhere later in a history of messages, hand-built registrations, clock advances and
+   sweeps: the world (table, tester state, counters) is unchanged and the tester is not even consulted *)
+Theorem C07_repeated_message_no_effect_stack :
+  forall select params_ok dst_port geoip_ok covert_check cfg lc h1 m pl pe h2 pl' pe',
+    let w := world_after select params_ok dst_port geoip_ok covert_check cfg lc (h1 ++ HMsg m pl pe :: h2) in
+    hstep select params_ok dst_port geoip_ok covert_check cfg w (HMsg m pl' pe') = (w, [], [], []).
+Proof. exact repeated_message_no_effect_stack. Qed.
+Print Assumptions C07_repeated_message_no_effect_stack.
+
+(* A registration is announced somewhere in a history iff at some step it was announced in the world the earlier steps
+   left -- and there (C07_stack_announced_iff_admissible) iff every admission condition held with the verdict the stack
+   gave at that moment. *)
+Theorem C07_history_announced_iff :
+  forall select params_ok dst_port geoip_ok covert_check cfg lc h r',
+    In (Announce r') (effects_of select params_ok dst_port geoip_ok covert_check cfg lc h) <->
+    exists h1 o h2, h = h1 ++ o :: h2 /\
+      In (Announce r') (heffects (hstep select params_ok dst_port geoip_ok covert_check cfg
+                                        (world_after select params_ok dst_port geoip_ok covert_check cfg lc h1) o)).
+Proof. exact history_announced_iff. Qed.
+Print Assumptions C07_history_announced_iff.
